@@ -155,7 +155,7 @@ impl SubCheck for Notifications {
 		"notifications"
 	}
 	fn cases(&self, tier: Tier) -> u32 {
-		tier.pick(30_000, 600_000)
+		tier.pick(150_000, 3_000_000)
 	}
 	fn strategy(&self, tier: Tier) -> BoxedStrategy<SubCase> {
 		let max = tier.pick(24usize, 48);
